@@ -40,7 +40,9 @@ def run(rep, tier, seed):
     n = size(tier, 50, 400)
     seeds = list(range(16)) if tier == "thorough" else [0, 1, 2]
     progs = [streams.gen_fol_program(seed + 61, k, quant=False, n_ops=(2, 8)) for k in range(n // 2)]
-    progs += [streams.gen_fol_program(seed + 67, k, quant=True, n_ops=(2, 8)) for k in range(n - n // 2)]
+    progs += [streams.gen_fol_program(seed + 67, k, quant=True, n_ops=(2, 8), mid_facts=0.1) for k in range(n - n // 2)]
+    progs += [streams.gen_fol_program(seed + 71, k, quant=False, n_ops=(0, 4), n_conn=(1, 2), down_first=True) for k in range(n // 2)]
+    progs += [streams.gen_downfirst_program(seed + 73, k) for k in range(2 * n)]      # tiny programs, cheap
     tmp = tempfile.mkdtemp(prefix="lnnverif_c10_")
     try:
         inp = os.path.join(tmp, "in.json")
